@@ -34,7 +34,9 @@ EXPLANATION = (
     "and flag of the manager unchanged, later fresh names and node ids as in a manager that never saw the request (part of R2).  One-shot "
     "queries that fail - is_sat whose assertion the back-end refuses or whose solve answers unknown, with and without the incremental "
     "interface - leave no level behind (part of R6).  A substitution that fails inside the body of a quantifier leaves the caller's map as it "
-    "was (R9).")
+    "was (R9).  Unsupported operator: on the real manager a node of a custom node type (operators.new_node_type) is handed to the simplifier, "
+    "the free-variables and size oracles and the substituter before a handler exists - the call fails -, then the handler is registered with "
+    "Environment.add_dynamic_walker_function: later calls answer as in an environment where the failing call was never made (R10).")
 NOT_DECIDED = ["traces inherent to the design (symbols declared by a failing script stay declared; symbols a failed "
                "add_assertion had already declared in the solver process stay declared and show up in later models)",
                "failures injected elsewhere than at handler calls (e.g. inside the walker's own loop)",
@@ -148,6 +150,12 @@ def run(ctx):
             else:
                 rs.unrec("%s %s: %s" % (nm, case, detail))
         ctx.floor(rs, 8)
+
+    if ctx.want("R10"):
+        rs = ctx.rule("R10", "unsupported operator: a service that failed on a node of a custom node type works once its handler is registered "
+                             "(Environment.add_dynamic_walker_function), as in an environment where the failing call was never made")
+        from . import mgr_deep
+        mgr_deep.report(ctx, rs, mgr_deep.dwf_results(), "pysmt/walkers/generic.py", 4)
 
     if ctx.want("R8"):
         rs = ctx.rule("R8", "human-readable parser object: after a text it rejected (names not declared yet, truncated text) it reads later texts as a fresh parser does")
